@@ -336,7 +336,7 @@ fn check_resolvers(loaded: &ts::Loaded, ev: &Eval, cx: &RefCx, mk: &dyn Fn(Strin
     out
 }
 
-fn rename_type(doc: &mut TsDoc, old: &str, new: &str) {
+pub fn rename_type(doc: &mut TsDoc, old: &str, new: &str) {
     fn ty(t: &mut Ty, old: &str, new: &str) {
         match t {
             Ty::Named(n) => {
